@@ -31,6 +31,8 @@ def hidden_state(check):
         loc = stepf.loc()
         found = {}
         scratch_bad = []
+        book = _bookkeeping(proj, c)
+        book_reads = {}
         try:
             for lin in (0, 1):
                 config, effs = step_effects(proj, c, lin)
@@ -39,6 +41,8 @@ def hidden_state(check):
                     allw |= e["written"]
                 for i, e in enumerate(effs):
                     for a, where in e["carried"]:
+                        if a in book:
+                            book_reads.setdefault(a, where)
                         if a in config and a not in allw:
                             continue          # configuration, never written by a step
                         if a in SCRATCH:
@@ -48,6 +52,11 @@ def hidden_state(check):
         except AnalysisError as e:
             check.undecided("EFF-HIDDEN-STATE", q, "abstract interpretation failed: %s" % e, loc)
             continue
+        if book_reads:
+            a, where = sorted(book_reads.items())[0]
+            check.violation("EFF-RUN-COUNTER", q, "step() reads self.%s at %s, run-relative bookkeeping that reset() / _solve manage: the same state is advanced differently at iteration N of one solve and at the first iteration of a restart from that state" % (a, where), loc, key="counter-" + a)
+        else:
+            check.ok("EFF-RUN-COUNTER", q, "step() reads none of the driver's bookkeeping attributes (%s)" % ", ".join(sorted(book)), loc)
         if scratch_bad:
             a, where = scratch_bad[0]
             check.violation("EFF-SCRATCH", q, "self.%s is read at %s before calcrhs/solve_implicit defined it in this step: a value left by a monitor or an earlier step enters the trajectory" % (a, where), loc, key="scratch-" + a)
@@ -68,6 +77,25 @@ def hidden_state(check):
         if not bad:
             allowed = sorted(a for a in found if a in ALLOWED_HIDDEN)
             check.ok("EFF-HIDDEN-STATE", q, "no solver attribute survives a step%s" % ((" except %s on linear models (JAC-GUARD)" % allowed) if allowed else ""), loc)
+
+
+def _bookkeeping(proj, c):
+    """attributes of the solver object managed by the driver: assigned in reset(), or in _solve from
+    anything but a bare parameter (the CFL number `condition` is a legitimate input of a step)"""
+    out = set()
+    for nm in ("reset", "_solve"):
+        f = proj.resolve(c, nm)
+        if f is None:
+            continue
+        sn = f.params[0]
+        for n in ast.walk(f.node):
+            ts = n.targets if isinstance(n, ast.Assign) else ([n.target] if isinstance(n, ast.AugAssign) else [])
+            for t in ts:
+                if isinstance(t, ast.Attribute) and isinstance(t.value, ast.Name) and t.value.id == sn:
+                    if nm == "_solve" and isinstance(n, ast.Assign) and isinstance(n.value, ast.Name) and n.value.id in f.params:
+                        continue
+                    out.add(t.attr)
+    return out
 
 
 def disc_scratch(check):
@@ -289,6 +317,6 @@ def body(check):
     res, info = analyse_solve(proj)
     analyse_entry_points(proj, res)
     check.inventory.update(info)
-    report(check, res, ("TS-FRESH-MAIN", "DRV-IT-STAMP", "DRV-RESET", "DRV-COUNT", "DRV-DT-MIN"))
+    report(check, res, ("TS-FRESH-MAIN", "DRV-IT-STAMP", "DRV-RESET", "DRV-COUNT", "DRV-DT-MIN", "DRV-CALLER-PURE"))
     # restart continues from f.it: copies must carry the iteration tag
     check.guarded("FIELD-DEEPCOPY", "field.fdata", lambda: field_deepcopy(check))
